@@ -1,10 +1,24 @@
 """Per-property checks: scopes, jobs, evidence.  See DESIGN.md section 5."""
 import json, os, sys, time
 import sfv
-from sfv import Run, p1_job, pair_job, p2_job, p3_stream_job, exp_job, record, log
+from sfv import Run, p1_job, pair_job, p2_job, p3_stream_job, exp_job, record, model_job, conf_job, log
 import random
 
 CHECKS = {}
+
+UNMODELLED = ("EhlersFisherTransform", "PolarizedFractalEfficiency", "Tap", "Decomp")
+def modelled(cfg):
+    return cfg.get("k") not in UNMODELLED and all(modelled(c) for c in cfg.get("c", []))
+
+def with_model(run, name, scope, conf=True):
+    """the same scope at the model level: family 1 (machine = definition; MC_Model) and family 3 (observation = machine; ProdM)"""
+    sc = {k: v for k, v in scope.items() if k in ("alphabet", "unit", "maxlen", "eps")}
+    sc["cfgs"] = [c for c in scope["cfgs"] if modelled(c)]
+    if not sc["cfgs"]:
+        return
+    run.submit(model_job, name + "-model", sc)
+    if conf:
+        run.submit(conf_job, name + "-conf", sc)
 
 def check(pid):
     def deco(f):
@@ -32,7 +46,9 @@ def c02(tier):
     else:
         plan = [(1, 5, A), (2, 6, A), (3, 7, A), (4, 8, A), (5, 9, [-2, 0, 3]), (6, 10, [-2, 0, 3]), (7, 10, [-2, 0, 3])]
     for n, L, alpha in plan:
-        run.submit(p1_job, "w-n%d" % n, "MC_Def", {"prop": "C02", "cfgs": cfgs(kinds, [n]), "alphabet": alpha, "unit": 1, "maxlen": L, "extras": True})
+        sc = {"prop": "C02", "cfgs": cfgs(kinds, [n]), "alphabet": alpha, "unit": 1, "maxlen": L, "extras": True}
+        run.submit(p1_job, "w-n%d" % n, "MC_Def", sc)
+        with_model(run, "w-n%d" % n, sc)
     # decimal unit: same definitions on inputs k/10 (not exactly representable): the statement allows rounding noise
     # proportional to the magnitude; sqrt-type outputs amplify 1e-16 to 1e-8, hence 1e-6 here (C16's figure)
     run.submit(p1_job, "w-dec", "MC_Def", {"prop": "C02", "cfgs": cfgs(kinds, [2, 3]), "alphabet": [-7, 0, 3, 12], "unit": 10, "maxlen": 5 if tier == "quick" else 7, "extras": True,
@@ -51,7 +67,9 @@ def c05(tier):
     plan = [(1, 5), (2, 6), (3, 7), (4, 8)] if tier == "quick" else [(1, 7), (2, 8), (3, 9), (4, 10), (5, 10), (6, 11)]
     for alpha in ([0, 1, 3], [-2, 0, 2]):
         for n, L in plan:
-            run.submit(p1_job, "rsi-n%d-a%d" % (n, alpha[0]), "MC_Def", {"prop": "C05", "cfgs": cfgs(kinds, [n]), "alphabet": alpha, "unit": 1, "maxlen": L})
+            sc = {"prop": "C05", "cfgs": cfgs(kinds, [n]), "alphabet": alpha, "unit": 1, "maxlen": L}
+            run.submit(p1_job, "rsi-n%d-a%d" % (n, alpha[0]), "MC_Def", sc)
+            with_model(run, "rsi-n%d-a%d" % (n, alpha[0]), sc)
     return run.finish(RULE_DEF)
 
 @check("C06")
@@ -64,7 +82,9 @@ def c06(tier):
         plan = [(3, 7, [0, 1, 2, 3]), (4, 8, [0, 1, 2, 3]), (5, 9, [0, 1, 3]), (6, 10, [0, 1, 3]), (7, 10, [0, 1, 3]),
                 (3, 7, [-2, 0, 1, 2]), (4, 8, [-2, 0, 1]), (8, 11, [0, 2])]
     for n, L, alpha in plan:
-        run.submit(p1_job, "trend-n%d-a%d" % (n, alpha[0]), "MC_Def", {"prop": "C06", "cfgs": cfgs(kinds, [n]), "alphabet": alpha, "unit": 1, "maxlen": L})
+        sc = {"prop": "C06", "cfgs": cfgs(kinds, [n]), "alphabet": alpha, "unit": 1, "maxlen": L}
+        run.submit(p1_job, "trend-n%d-a%d" % (n, alpha[0]), "MC_Def", sc)
+        with_model(run, "trend-n%d-a%d" % (n, alpha[0]), sc)
     return run.finish(RULE_DEF)
 
 @check("C13")
@@ -72,7 +92,9 @@ def c13(tier):
     run = Run("C13", tier, "model_checking")
     cf = [{"k": "WelfordRolling"}, {"k": "Drawdown"}, {"k": "LnReturn"}]
     L = 7 if tier == "quick" else 9
-    run.submit(p1_job, "roll-int", "MC_Def", {"prop": "C13", "cfgs": cf, "alphabet": [1, 2, 4, 7], "unit": 1, "maxlen": L, "extras": True})
+    sc = {"prop": "C13", "cfgs": cf, "alphabet": [1, 2, 4, 7], "unit": 1, "maxlen": L, "extras": True}
+    run.submit(p1_job, "roll-int", "MC_Def", sc)
+    with_model(run, "roll-int", dict(sc, maxlen=L - 1))
     run.submit(p1_job, "roll-dec", "MC_Def", {"prop": "C13", "cfgs": cf, "alphabet": [5, 12, 20, 31], "unit": 10, "maxlen": L - 1, "extras": True,
                                       "eps": [1, 1000000]})
     # long positive streams (new peaks after deeper troughs, repeated peaks, monotone runs): exact running sums in the ghost state
@@ -111,7 +133,10 @@ def c11(tier):
         plan = [(1, 7, [0, 1, 3]), (2, 8, [0, 1, 3]), (3, 9, [0, 1, 3]), (4, 9, [0, 1, 3]), (5, 10, [1, 2, 4]), (6, 10, [0, 1, 3]),
                 (7, 12, [0, 3]), (8, 13, [1, 4]), (10, 14, [0, 3]), (12, 15, [1, 4]), (16, 18, [0, 3]), (20, 18, [1, 4])]
     for n, L, alpha in plan:
-        run.submit(p1_job, "ehlers-n%d" % n, "MC_Def", {"prop": "C11", "cfgs": views(n), "alphabet": alpha, "unit": 1, "maxlen": L})
+        sc = {"prop": "C11", "cfgs": views(n), "alphabet": alpha, "unit": 1, "maxlen": L}
+        run.submit(p1_job, "ehlers-n%d" % n, "MC_Def", sc)
+        if n <= 5:
+            with_model(run, "ehlers-n%d" % n, dict(sc, maxlen=min(L, 7)))
     run.submit(p1_job, "laguerre", "MC_Def", {"prop": "C11", "cfgs": lag, "alphabet": [-2, 0, 1, 3], "unit": 1, "maxlen": 6 if tier == "quick" else 8})
     return run.finish(RULE_DEF)
 
@@ -123,7 +148,9 @@ def c14(tier):
     cf += [{"k": g, "v": v, "c": [x]} for g in ("GTE", "LTE") for v in ([1, 2], [0, 1], [-3, 4]) for x in K]
     cf += [{"k": "Tanh", "c": [x]} for x in K] + [E, {"k": "Constant", "v": [3, 2]}, {"k": "Constant", "v": [-1, 4]}]
     L = 4 if tier == "quick" else 6
-    run.submit(p1_job, "pointwise", "MC_Def", {"prop": "C14", "cfgs": cf, "alphabet": [-3, 0, 1, 4], "unit": 2, "maxlen": L, "bitexact": True})
+    sc = {"prop": "C14", "cfgs": cf, "alphabet": [-3, 0, 1, 4], "unit": 2, "maxlen": L, "bitexact": True}
+    run.submit(p1_job, "pointwise", "MC_Def", sc)
+    with_model(run, "pointwise", sc)
     Kp = [E, {"k": "LnReturn"}, sma(2), {"k": "Constant", "v": [5, 4]}]
     cfp = [{"k": b, "c": [x, y]} for b in ("Add", "Subtract", "Multiply", "Divide") for x in Kp for y in Kp if "LnReturn" in (x["k"], y["k"])]
     cfp += [{"k": g, "v": [1, 4], "c": [{"k": "LnReturn"}]} for g in ("GTE", "LTE")] + [{"k": "Tanh", "c": [{"k": "LnReturn"}]}]
@@ -146,6 +173,7 @@ def c04(tier):
         sc = {"prop": "C04", "cfgs": c04_cfgs(n), "alphabet": alpha, "unit": 1, "maxlen": L}
         # recurrence (Ema, every alpha) and kernel (Alma) clauses: the definition
         run.submit(p1_job, "avg-def-n%d" % n, "MC_Def", sc)
+        with_model(run, "avg-def-n%d" % n, sc)
         # interval / constant / monotone for the averages the statement names (default alpha)
         sc2 = dict(sc); sc2["cfgs"] = [sma(n), ema(n), {"k": "Alma", "n": n}, {"k": "Alma", "n": n, "sigma": [3, 1], "offset": [1, 2]}]
         run.submit(p1_job, "avg-rel-n%d" % n, "MC_C04", sc2, nontrivial_keys=("interval",))
@@ -349,6 +377,12 @@ def c15(tier):
             ch = [with_child(o, inner) for n in (1, 3) for o in catalogue(n) if o["k"] not in ("Echo", "Constant")]
             run.submit(p1_job, "np-chain%d-%s" % (i, prof), "MC_Obs", {"prop": "C15", "cfgs": ch, "alphabet": [-1, 0, 1], "unit": 1, "maxlen": 5},
                    profile=prof, nontrivial_keys=nk, view_label=label)
+    # model level: the implementation-shaped machines never "panic" (usize underflow, empty unwrap) for any window 1..64
+    for a in ([0], [1], [-1, 2]):
+        ns = [1, 2, 3, 4, 5, 8, 16, 33, 64] if tier == "quick" else list(range(1, 65))
+        ml = 12 if len(a) == 2 else 68
+        ns2 = [n for n in ns if len(a) == 1 or n <= 8]
+        run.submit(model_job, "np-model-%d" % a[0], {"cfgs": [c for n in ns2 for c in catalogue(n, positive=(a == [1])) if modelled(c)], "alphabet": a, "unit": 1, "maxlen": ml, "nodef": True})
     return run.finish("every input sequence over the alphabet up to maxlen, for every view of the catalogue, windows 1..64, two-level chains, "
                       "debug-assertion and release builds; non-trivial = observations of accepted configurations (each is checked for panic)")
 
@@ -570,6 +604,10 @@ def c18(tier):
         for cfg in c18_cfgs(n):
             L0 = 8 * (2 * n + 4)
             exps.append({"cfg": cfg, "unit": 10, "marks": [L0, 4 * L0, 16 * L0 if tier == "quick" else 256 * L0], "period": [12, 15, 11, 18, 18, 9, 14]})
+    # model level: the machines' buffers stay under CellBound along constant and two-symbol streams four windows long
+    for n in ((1, 3, 16) if tier == "quick" else (1, 2, 3, 5, 16, 64)):
+        run.submit(model_job, "cells-n%d" % n, {"cfgs": [c for c in catalogue(n) if modelled(c)], "alphabet": [2] if n > 3 else [-1, 2], "unit": 1,
+                                                "maxlen": 4 * n + 8 if n > 3 else 10, "nodef": True})
     out = record(run, "mem", exps, mode="mem")
     out = [o for o in out if isinstance(o.get("res"), dict)]
     exp_job(run, "mem", "C18", out, "views", describe=lambda e: {"cfg": e["cfg"], "marks": e["res"]["marks"]})
